@@ -16,7 +16,8 @@ HERE = os.path.dirname(os.path.abspath(__file__))
 sys.path.insert(0, HERE)
 import asm2lean as G  # noqa: E402
 
-TARGET = "SodiumModel.Properties.C05Asm"
+TARGETS = ["SodiumModel.Properties.C05Asm", "SodiumModel.Properties.C05Asm2"]
+TARGET = " + ".join(TARGETS)
 GEN_REL = os.path.join("Generated", "Sandy2xAsm.lean")
 
 DIAG = r'''
@@ -109,7 +110,7 @@ def tie_b(lean_dir, repo_src, asm_dir=None, outdir=None):
     try:
         if differs:
             open(gen, "w").write(text)
-        p = subprocess.run(["lake", "build", TARGET], cwd=lean_dir, capture_output=True, text=True)
+        p = subprocess.run(["lake", "build"] + TARGETS, cwd=lean_dir, capture_output=True, text=True)
         log = p.stdout + p.stderr
         if p.returncode == 0:
             return True, "%s; regenerated text %s the committed Generated/Sandy2xAsm.lean; lake build %s ok; %.1fs" % (
@@ -128,7 +129,7 @@ def tie_b(lean_dir, repo_src, asm_dir=None, outdir=None):
                 open(gen, "w").write(committed)
             else:
                 os.unlink(gen)
-            subprocess.run(["lake", "build", TARGET], cwd=lean_dir, capture_output=True, text=True)   # back to the committed state
+            subprocess.run(["lake", "build"] + TARGETS, cwd=lean_dir, capture_output=True, text=True)   # back to the committed state
 
 
 if __name__ == "__main__":
